@@ -21,7 +21,7 @@ func init() {
 	})
 }
 
-var c11Texts = []string{"12", "k", "010", "\xc3\xa91"}
+var c11Texts = []string{"12", "k", "010", "\xc3\xa91", "false", "0"}
 
 func c11Env(text string) map[string]PV {
 	return map[string]PV{"match": pvS(text), "matchLength": pvN(len(text)), "matchNumber": pvN(1)}
@@ -29,7 +29,7 @@ func c11Env(text string) map[string]PV {
 
 func c11Operands() []*PE {
 	return []*PE{leafNum(0), leafNum(1), leafNum(2), leafNum(10), bin("-", leafNum(0), leafNum(3)),
-		leafStr(""), leafStr("a"), leafStr("b"), leafStr("2"), leafStr("10"), leafStr("x1"),
+		leafStr(""), leafStr("a"), leafStr("b"), leafStr("0"), leafStr("false"), leafStr("2"), leafStr("10"), leafStr("x1"),
 		leafNum(9223372036854775807), bin("-", leafNum(0), leafNum(9223372036854775807)),
 		leafStr("010"), leafStr("0x10"), leafStr("1_0"), leafStr("-5"), leafStr("+5"), leafStr(" 5"), leafStr("1e1"),
 		leafBool(true), leafBool(false), leafVar("match", TStr), leafVar("matchLength", TNum), leafVar("unset", TStr)}
